@@ -16,7 +16,13 @@ RULE = ("random collections of 0-8 instrument definitions over 1-4 exchanges (al
         "expiries from {0, 1, 2, 999, 1000, one day, 1e12} ms; near-copies that differ in ONE late member of the derived order; perm = reverse order / every element twice / "
         "one element four times; exec = all exchanges of the collection, subsets, an unmentioned exchange of the enum, a duplicate) and `l` (N/60 cases: 50-130 definitions over 2-8 "
         "exchanges and 8-40 asset names, every tenth one - the fifth first, so also in the quick tier - 260-320 definitions: positions past u8; every fourth with names shared "
-        "between exchanges). Distinct by SHA-1 of the op lines; non-trivial when the implementation's observation blocks differ at least once")
+        "between exchanges). Set-up family `g` (configuration-shape audit; max(8, N/6) cases, own seed; 0-9 definitions over 1-5 exchanges of the whole enum): three `engcfg` ops - the engine "
+        "state assembled by an arbitrary SEQUENCE of EngineStateBuilder calls (time_engine_start / trading_state never, once or twice, before, between or after the `balances` calls; "
+        "initial balances for none / some / all exchange-assets, in index order, reversed or shuffled, in 0-3 calls, 30 % with a key repeated, the same asset name on several exchanges "
+        "with different values; 4 % with a key outside the collection = documented panic): keys `trd`, `bal` (balance at every POSITION), `balr` (balance found for every supplied key "
+        "via find_asset_index + asset_index), `baln` - and three `execk` ops (ExecutionBuilder with the KIND of link named per exchange, `m<E>` add_mock / `l<E>` add_live: none / all / "
+        "only the last / only the first / a subset of the exchanges, any order, all mock / all live / mixed; key `nfut` = mock-exchange and manager-init futures held by the build). "
+        "Distinct by SHA-1 of the op lines; non-trivial when the implementation's observation blocks differ at least once")
 ASSUMPTIONS = [
     "WFAssets (needed by references_resolve, lookups_inverse_asset, tables_aligned_assets, resolve_by_name, engine_tables_resolve): within one exchange an asset's "
     "name_internal determines its name_exchange. At the excluded points the real code resolves an asset reference to the first asset of that exchange with that "
@@ -37,6 +43,14 @@ ASSUMPTIONS = [
     "runs the real name constructors on raw strings)",
     "slice::sort + Vec::dedup, IndexMap::from_iter / get_index and Iterator::find_map are modelled by their documented list semantics (List.mergeSort + adjacent dedup, "
     "insert-or-replace-in-place, first match)",
+    "engine-state set-up (op `engcfg`): the EngineStateBuilder options are independent - the state is the same function of the LAST trading_state given (Disabled by default) and of "
+    "the last balance supplied per ExchangeAsset key (the builder keeps them in a hash map; documented) whatever the order and multiplicity of the calls; the balance of key (E, name) "
+    "is held by exactly the entry whose position is find_asset_index(E, name) and by no other (spec keys `balr` / `baln`, under WFAssets). A balance for a key the collection does not "
+    "hold makes `build` panic (AssetStates::asset_mut, documented panic): model and code agree, the spec is silent on such an op. time_engine_start is not observed (the default is the "
+    "wall clock); the instrument-data initialiser, global data, PositionManager / Orders are the defaults (generate_indexed_instrument_states takes no initial positions or orders)",
+    "execution set-up (op `execk`): add_mock and add_live fill the same table, so the spec ignores the kind of link; add_mock for an exchange that has a non-spot instrument panics "
+    "(generate_mock_exchange_instruments: `MockExchange does not support`, documented) - model and code agree, the spec is silent there. An exchange without any instrument cannot "
+    "occur in an IndexedInstruments (exchanges and assets are collected from instruments only), so `exchange with assets but no instruments` is not a shape of the API",
     "ExecutionBuilder is reduced to its ExchangeId -> ExchangeIndex table; transmitters are opaque (only Some/None per slot is observed); MockExchange set-up is exercised for spot-only exchanges, a stub live client otherwise",
 ]
 SOURCE_FILES = ["barter-instrument/src/index/mod.rs", "barter-instrument/src/index/builder.rs",
